@@ -148,6 +148,18 @@ func genC05(r *Rng, tier string) *World {
 		c.PAbsent = Pick(r, []float64{0.15, 0.3})
 		c.without("pre")
 	})
+	// defaults that are the Go zero value (and required nodes with defaults) are where "still absent" and "defaulted" blur
+	w.Schemas[0].Walk(func(n *Node) {
+		if n.IsPrim() && n.Catch != nil && r.P(0.3) {
+			zero := map[string]Val{"string": VS(""), "int": VI(0), "float": VF(0), "bool": VB(false), "time": VT("0001-01-01T00:00:00Z")}[n.Kind]
+			if n.Kind != "time" && n.Kind != "string" {
+				n.Def = &zero
+			}
+			if r.P(0.5) {
+				n.Req = true
+			}
+		}
+	})
 	// drop value-dependent container tests: they legitimately differ between S and S'
 	w.Schemas[0].Walk(func(n *Node) {
 		if n.Kind == "slice" {
@@ -470,11 +482,22 @@ func init() {
 func genC13(r *Rng, tier string) *World {
 	w := &World{Prop: "C13", Cfg: DrawDecCfg(r)}
 	c := DrawGenCfg(r, "validate")
-	c.PTags = 0
 	c.without("pre")
 	c.PPT = Pick(r, []float64{0, 0.2})
 	c.PValid = Pick(r, []float64{0.4, 0.7, 0.9})
 	root := GenNode(r, &c, 0, true)
+	// both modes name a field by its `zog` tag (no source tag is involved for a plain map); other tags are dropped here
+	root.Walk(func(n *Node) {
+		for _, f := range n.Fields {
+			var keep []KV
+			for _, t := range f.Tags {
+				if t.K == "zog" {
+					keep = append(keep, t)
+				}
+			}
+			f.Tags = keep
+		}
+	})
 	// "leave equal values": transforms that really transform (deterministically) make the value depend on whether they ran
 	root.Walk(func(n *Node) {
 		for i := range n.PTs {
